@@ -495,6 +495,182 @@ def c11_extra(ctx):
 LINE_EXTRA["C11"] = c11_extra
 LINE_EXTRA["C19"] = c19_extra
 
+def strs(x):
+    if isinstance(x, list):
+        return [strs(y) for y in x]
+    if isinstance(x, dict):
+        return {str(k): strs(v) for k, v in x.items()}
+    return str(x)
+
+
+def cmp_function(a, b):
+    d = []
+    if "err" in a or "err" in b or "analysis_err" in a:
+        ea = ("err" in a) or ("analysis_err" in a)
+        if ea != ("err" in b):
+            d.append(f"error status differs: model={str(a)[:200]} impl={str(b)[:200]}")
+        return d
+    if sorted(strs(a["fn_blocks"])) != sorted(strs(b["fn_blocks"])):
+        d.append(f"function blocks: model={a['fn_blocks']} impl={b['fn_blocks']}")
+        return d
+    ea, eb = strs(a["edges"]), strs(b["edges"])
+    for k in eb:
+        if ea[k]["next"] != eb[k]["next"]:
+            d.append(f"block {k} next: model={ea[k]['next']} impl={eb[k]['next']}")
+        if sorted(ea[k]["prev"]) != sorted(eb[k]["prev"]):
+            d.append(f"block {k} prev: model={ea[k]['prev']} impl={eb[k]['prev']}")
+    for k in b["ctx"]:
+        if a["ctx"].get(k) != b["ctx"][k]:
+            ks = [x for x in set(a["ctx"].get(k, {})) | set(b["ctx"][k]) if a["ctx"].get(k, {}).get(x) != b["ctx"][k].get(x)]
+            d.append(f"ctx block {k} {ks[:3]}: model={[a['ctx'].get(k, {}).get(x) for x in ks[:3]]} impl={[b['ctx'][k].get(x) for x in ks[:3]]}")
+    if strs(a["paths"]) != strs(corr.norm_err(b["paths"]) if isinstance(b["paths"], dict) and "err" in b["paths"] else b["paths"]):
+        for det in b["paths"]:
+            if strs(a["paths"].get(det)) != strs(b["paths"][det]):
+                d.append(f"paths {det}: model={a['paths'].get(det)} impl={b['paths'][det]}")
+                break
+    return d
+
+
+def dispatch_paths(cfg, rng, maxn=5, maxlen=4):
+    """root-to-block prefixes of the main graph (simple)"""
+    nxt = {b["idx"]: b["next"] for b in cfg["blocks"]}
+    main = set(cfg["main"]["blocks"])
+    out = [[0]]
+    frontier = [[0]]
+    for _ in range(maxlen - 1):
+        nf = []
+        for p in frontier:
+            for s in nxt.get(p[-1], []):
+                if s in main and s not in p:
+                    nf.append(p + [s])
+        frontier = nf
+        out += nf
+    if len(out) > maxn:
+        out = [out[0]] + rng.sample(out[1:], maxn - 1)
+    return out
+
+
+def run_c12(ctx):
+    cov = ctx["cov"]
+    rng = ctx["rng"]
+    nprog = 120 if ctx["tier"] == "quick" else 1200
+    progs = [(n, t) for n, t in gen.adversarial_programs()]
+    for k in range(nprog):
+        t, _ = gen.random_program(rng)
+        progs.append((f"rand{k}", t))
+    creqs = [("cfg", f"c{n}", t, []) for n, (_, t) in enumerate(progs)]
+    cm, _ci = corr.run_both(creqs)
+    reqs = []
+    meta = {}
+    for n, (name, t) in enumerate(progs):
+        c = cm[f"c{n}"]
+        if "blocks" not in c or c.get("structured") is False:
+            continue
+        for path in dispatch_paths(c, rng):
+            rid = f"f{len(reqs)}"
+            reqs.append(("function", rid, t, path))
+            meta[rid] = (name, t, path)
+    m, i = corr.run_both(reqs)
+    _, i2 = corr.run_both(reqs, impl_env={"VERIF_OTHER_FUNCTIONS_FIRST": "1"})
+    nd = 0
+    long_paths = 0
+    for kind, rid, t, path in reqs:
+        a, b = m[rid], i[rid]
+        if len(path) > 1:
+            long_paths += 1
+        d = cmp_function(a, b)
+        if not d and "ctx" in b:
+            if b.get("contract_graph_unchanged") is not True:
+                ctx["violations"].append((f"{meta[rid][0]} path {path}: building the function altered the contract's own graph", {"kind": "graph-altered", "program": t, "dispatch_path": path}))
+            b2 = i2[rid]
+            if b2.get("ctx") != b.get("ctx") or b2.get("paths") != b.get("paths") or b2.get("edges") != b.get("edges"):
+                ctx["violations"].append((f"{meta[rid][0]} path {path}: result depends on which other functions were built first", {"kind": "function-interference", "program": t, "dispatch_path": path}))
+        if d:
+            nd += 1
+            if nd <= 3:
+                ctx["broken"].append(f"correspondence (function for dispatch path {path}) on {meta[rid][0]}: {d[0][:300]} || program: {t!r}")
+    cov["traces_validated_against_impl"] = len(reqs)
+    cov["evaluations"] = len(reqs)
+    cov["distinct_nontrivial"] = long_paths
+    cov["rule"] = "(program, dispatch path) pairs: every root-to-block prefix (length <= 4, sampled to 5 per program) of the main graph of adversarial + random programs; non-trivial = path longer than [B0]"
+    cov["disagreements"] = nd
+
+
+def gen_group(rng):
+    """a group configuration in the driver's text format"""
+    ncon = rng.choice([1, 1, 2])
+    lines = []
+    funcs = []  # (global index, stateful?)
+    for c in range(ncon):
+        t, _ = gen.random_program(rng, kf_free=True)
+        stateful = rng.random() < 0.5
+        if stateful:
+            tl = t.split("\n")
+            tl.insert(1 if tl[0].startswith("#pragma") else 0, "int 0\nbalance\npop")
+            t = "\n".join(tl)
+        tl = t.split("\n")
+        nf = rng.choice([1, 1, 2])
+        lines.append(f"C {nf} {len(tl)}")
+        lines += tl
+        for _ in range(nf):
+            lines.append("P 0")
+            funcs.append((len(funcs), stateful))
+    ntx = rng.choice([1, 2, 2, 3])
+    ids = [f"T{k}" for k in range(ntx)]
+    absidx = rng.sample(range(0, 4), ntx)
+    for k in range(ntx):
+        ty = rng.choice(["Pay", "Axfer", "Appl", "Any", "KeyReg"])
+        ls = app = "-"
+        hl = "0"
+        cand_ls = [g for g, st in funcs if not st]
+        cand_app = [g for g, st in funcs if st]
+        if cand_ls and rng.random() < 0.6:
+            ls = str(rng.choice(cand_ls))
+            hl = "1"
+        elif rng.random() < 0.2:
+            hl = "1"
+        if cand_app and rng.random() < 0.5:
+            app = str(rng.choice(cand_app))
+        ab = str(absidx[k]) if rng.random() < 0.6 else "-"
+        rel = []
+        for o in range(ntx):
+            if o != k and rng.random() < 0.4:
+                rel.append(f"{rng.choice([-2, -1, 1, 2, 3])}={ids[o]}")
+        lines.append(f"T {ids[k]} {ty} {hl} {ls} {app} {ab} {','.join(rel) if rel else '-'}")
+    return "\n".join(lines)
+
+
+def run_c13(ctx):
+    cov = ctx["cov"]
+    rng = ctx["rng"]
+    n = 150 if ctx["tier"] == "quick" else 1500
+    reqs = [("group", f"g{k}", gen_group(rng), []) for k in range(n)]
+    m, i = corr.run_both(reqs)
+    nd = 0
+    nvuln = 0
+    for kind, rid, t, _ in reqs:
+        a, b = m[rid], i[rid]
+        if "err" in a or "err" in b:
+            if ("err" in a) != ("err" in b):
+                nd += 1
+                if nd <= 3:
+                    ctx["broken"].append(f"correspondence (group verdict): model={str(a)[:200]} impl={str(b)[:200]} config={t!r}")
+            continue
+        if any(b[d] for d in b):
+            nvuln += 1
+        for d in b:
+            if sorted(a.get(d, [])) != sorted(b[d]):
+                nd += 1
+                if nd <= 3:
+                    ctx["broken"].append(f"correspondence (group verdict) detector {d}: model={a.get(d)} impl={b[d]} config={t!r}")
+                break
+    cov["traces_validated_against_impl"] = len(reqs)
+    cov["evaluations"] = len(reqs)
+    cov["distinct_nontrivial"] = nvuln
+    cov["rule"] = "group configurations: 1-2 contracts (random fragment programs, stateful or stateless), 1-3 transactions with random types / logic-sig / application / absolute index / relative offsets; non-trivial = some transaction reported vulnerable"
+    cov["disagreements"] = nd
+
+
 PROPS = {
     "C01": {"run": run_c01},
     "C02": {"run": run_c02},
@@ -506,6 +682,8 @@ PROPS = {
     "C09": {"run": run_ctx(key_is("Fee"), {"C09"}, ["fee", "spell", "bool"])},
     "C10": {"run": run_ctx(key_is("RekeyTo", "CloseRemainderTo", "AssetCloseTo", "Sender", "Fee", "TransactionType", fams=("at", "abs", "rel")), {"C10"}, ["idx"])},
     "C11": {"run": run_lines(("pop", "push", "cls"))},
+    "C12": {"run": run_c12},
+    "C13": {"run": run_c13},
     "C16": {"run": run_lines(("cls", "str"))},
     "C19": {"run": run_lines(("version", "mode", "cost"))},
     "C20": {"run": run_c20},
